@@ -3,16 +3,16 @@
 seeded/<id>/meta.json.  usage: matrix_to_md.py <matrix.log>"""
 import json, re, sys, os
 
-log = sys.argv[1]
 rows = {}
-for line in open(log):
-    line = line.rstrip('\n')
-    m = re.match(r'^([A-Za-z0-9-]+):(.*)$', line)
-    if not m:
-        continue
-    sid, rest = m.group(1), m.group(2)
-    hits = re.findall(r'(C\d\d)\[([^\]]*)\]', rest)
-    rows[sid] = [(p, [s for s in sigs.split(',') if s]) for p, sigs in hits]
+for log in sys.argv[1:]:  # later logs override earlier ones
+    for line in open(log):
+        line = line.rstrip('\n')
+        m = re.match(r'^([A-Za-z0-9-]+):(.*)$', line)
+        if not m:
+            continue
+        sid, rest = m.group(1), m.group(2)
+        hits = re.findall(r'(C\d\d)\[([^\]]*)\]', rest)
+        rows[sid] = [(p, [s for s in sigs.split(',') if s]) for p, sigs in hits]
 
 def one_line(sid):
     d = f'/verif/seeded/{sid}'
@@ -33,14 +33,18 @@ def one_line(sid):
 
 out = []
 out.append('## 9. Seeded changes: which checks catch which\n')
-out.append('Forty changes were written by independent sub-agents that were given only the text of one property and a\n'
-           'scratch worktree of `/repo` (nothing from `/verif`); each was confirmed by us in a scratch worktree (it\n'
-           'compiles with default and full features, the existing suite passes with it, its own demonstration test\n'
-           'passes without it and fails with it - `seeded/<id>/meta.json`). Five more are the reverses of the repair\n'
-           'commits (F1-F5). The table is produced by `tools/matrix.sh` + `tools/matrix_to_md.py`: every change is\n'
-           'applied to a scratch copy of the repository, all 20 *quick* checks are run at seed 0, and the checks that\n'
-           'exit 1 are listed with the first oracle rules that fired. "own" = the check of the property the change was\n'
-           'written against.\n')
+out.append('The changes were written by independent sub-agents that were given only the text of one property and a\n'
+           'scratch worktree of `/repo` (nothing from `/verif`), two per property and round: round 1 (`Cxx-m1/m2`: any\n'
+           'realistic defect), round 2 (`-r2m*`: not the most obvious site), round 3 (`-r3m1`: two cooperating edits that\n'
+           'are each harmless alone; `-r3m2`: interleaving-only, or - for the codec / macro / hook / stub properties - an\n'
+           'unusual but legitimate input or usage), round 4 (`-r4m1`: reachable only through a less common API entry\n'
+           'point, wrapper or configuration; `-r4m2`: manifests only after an earlier failure / cancellation / drop on the\n'
+           'same connection). Each was confirmed by us in a scratch worktree (it compiles with default and full features,\n'
+           'the existing suite passes with it, its own demonstration test passes without it and fails with it -\n'
+           '`seeded/<id>/meta.json`). `F1..F5-revert` are the reverses of repair commits, `H1` a hand-written one. The\n'
+           'table is produced by `tools/matrix.sh` + `tools/matrix_to_md.py`: every change is applied to a scratch copy\n'
+           'of the repository, all 20 *quick* checks are run at seed 0, and the checks that exit 1 are listed with the\n'
+           'first oracle rules that fired. "own" = the check of the property the change was written against.\n')
 out.append('| change | written against | caught by own check | all checks that fire (first rules) |')
 out.append('|---|---|---|---|')
 missed = []
